@@ -28,6 +28,7 @@ func init() {
 		"vfAssert":  vfAssert,
 		"vfReach":   vfReach,
 		"vfNote":    vfNote,
+		"vfTier":    vfTier,
 		"vfConc":    vfConc,
 		"vfSymbolic": func(fr *frame, a []value) value { return true },
 		"vfLive":    func(fr *frame, a []value) value { fr.i.sched.quiesce(); return fr.i.sched.live() },
@@ -121,17 +122,14 @@ func vfReach(fr *frame, a []value) value {
 }
 
 func vfNote(fr *frame, a []value) value {
-	s := ""
-	switch x := a[0].(type) {
-	case string:
-		s = x
-	case symStr:
-		s = x.String()
-	}
-	if len(fr.i.path.notes) < 40 {
-		fr.i.path.notes = append(fr.i.path.notes, s)
+	if len(fr.i.path.notes) < 64 {
+		fr.i.path.notes = append(fr.i.path.notes, a[0])
 	}
 	return nil
+}
+
+func vfTier(fr *frame, a []value) value {
+	return fr.i.opts.Tier
 }
 
 // vfConc(x) forces a string to be concrete on this path (forks over its values).
